@@ -12,7 +12,7 @@ use crate::{
             TimingPoints, TimingPointsState,
         },
     },
-    util::{ParseNumber, ParseNumberError, Pos, StrExt},
+    util::{cmp_time, ParseNumber, ParseNumberError, Pos, StrExt},
     Beatmap,
 };
 
@@ -435,7 +435,7 @@ impl From<HitObjectsState> for HitObjects {
         let events = state.events;
 
         let mut hit_objects = state.hit_objects;
-        hit_objects.sort_by(|a, b| a.start_time.total_cmp(&b.start_time));
+        hit_objects.sort_by(|a, b| cmp_time(a.start_time, b.start_time));
 
         HitObjectsState::post_process_breaks(&mut hit_objects, &events);
         let mut bufs = CurveBuffers::default();
